@@ -7,7 +7,9 @@ K05  rows missing only while result caching is enabled, caused by the cache inde
        precondition : the failure is 'rows missing' (no extra rows, no exception, no wrong multiplicity)
        attribution  : the same case rebuilt fresh with caching DISABLED equals the oracle, AND the caching-enabled run
                       shows >= 1 retrieve call whose answer equals the K20 deviation model (and none that equals neither
-                      the specification nor the deviation model)
+                      the specification nor the deviation model), AND with caching enabled and IndexedCache.retrieve
+                      replaced by the specification walk of the same stored entries (monitors.FORCE_SPEC_RETRIEVE, which
+                      removes exactly the K20 deviation and nothing else) no row is missing any more
 K02  de-duplication drops rows when a variable is mentioned by the condition but not selected:
        precondition : some variable is mentioned but not selected, the failure is 'rows missing'
        attribution  : with caching disabled the case still fails, and with caching disabled and the de-duplication
@@ -32,15 +34,17 @@ def attribute(failure, run, expected_rows, *, mentioned_not_selected=False, comp
     if not _only_missing(kind):
         return None
 
-    def fresh(caching, dedup_off=False):
+    def fresh(caching, dedup_off=False, spec_retrieve=False):
         reset_eql_state()
         M.begin_case()
         M.FORCE_DEDUP_OFF = dedup_off
+        M.FORCE_SPEC_RETRIEVE = spec_retrieve
         try:
             got = run(caching)
             return got, Counter(M.RETRIEVE_EVENTS)
         finally:
             M.FORCE_DEDUP_OFF = False
+            M.FORCE_SPEC_RETRIEVE = False
 
     try:
         got_on, ev_on = fresh(True)
@@ -53,7 +57,12 @@ def attribute(failure, run, expected_rows, *, mentioned_not_selected=False, comp
         return None  # not reproducible from a fresh build: not what the entry describes
     if off_bad is None:
         if _only_missing(on_bad) and ev_on["known_deviation"] >= 1 and ev_on["other_deviation"] == 0:
-            return "K05"
+            try:
+                got_spec, _ = fresh(True, spec_retrieve=True)
+            except Exception:
+                return None
+            if not (set(expected_rows) - set(got_spec)):
+                return "K05"
         return None
     # fails with caching off as well
     if mentioned_not_selected and _only_missing(off_bad):
